@@ -382,9 +382,24 @@ func runC09(c *Ctx) {
 				nullSide = true
 			}
 		})
+		// the column index describes the rows only for row groups whose chunks are
+		// their rows: the marker is consulted before any column index is read
+		var markerCall ssa.Instruction
+		allCalls(fn, false, func(_ *ssa.Function, call ssa.CallInstruction) {
+			if calleeName(call) == "chunkTransparentRowGroup" {
+				markerCall = call.(ssa.Instruction)
+			}
+		})
+		guarded := markerCall != nil
+		allCalls(fn, true, func(in *ssa.Function, call ssa.CallInstruction) {
+			if in == fn && strings.HasSuffix(calleeName(call), ").ColumnIndex") && markerCall != nil && !dominates(markerCall, call.(ssa.Instruction)) {
+				guarded = false
+			}
+		})
+		c.Check(rule, "key range is read only from row groups whose chunks describe their rows", fn.Pos(), guarded, "rowGroupRangeOfSortedColumns reads the column index of any row group: for a row group that is itself a merge (its chunks are the concatenation of its inputs' chunks) the first and last pages say nothing about the range of its rows, inputs are declared disjoint and concatenated, and the output is not sorted")
 		c.Check(rule, "key range of a sorted row group reaches its null rows", fn.Pos(), nullInfo && nullSide, "the key range is read from page bounds alone, which ignore nulls, without consulting the null counts of the column index and the NullsFirst() of the sorting column: row groups with disjoint value ranges that hold nulls are concatenated and the nulls of each end up in the middle of the output")
 	}
-	c.Min(rule, 2)
+	c.Min(rule, 3)
 	// merge readers propagate read errors
 	io := NewIOErrs(p)
 	runErrRule(c, "C09.errors",
